@@ -355,7 +355,28 @@ theorem c01_ctl_in_target_rejected_strict (o : Opts) (line block : Bytes) (r1 : 
   · rfl
   · rcases hmode with hm | hm <;> simp [hm, hbad]
 
+/-- default parse options (header-strict and url-ctrls-reject): the check of the target is
+    left to URL normalisation, which drops a fragment unread — so the request line step itself
+    rejects a control character, space, NUL or DEL anywhere behind the first '#' (D61) -/
+theorem c01_ctl_in_fragment_rejected_default (o : Opts) (line block : Bytes) (r1 : PReq) (uri : Bytes)
+    (hs : o.headerStrict = true) (hcore : parseReqlineCore o line = .ok (r1, uri))
+    (hbad : fragmentInvalidStrict uri = true) :
+    parseReqline o line block = .error 400 := by
+  unfold parseReqline
+  simp only [hcore, hs]
+  split
+  · rfl
+  · have hall : uri.any uriCharInvalidStrict = true := by
+      unfold fragmentInvalidStrict at hbad
+      simp only [List.any_eq_true] at hbad ⊢
+      obtain ⟨b, hb, hbb⟩ := hbad
+      exact ⟨b, (List.dropWhile_sublist _).subset hb, hbb⟩
+    split <;> simp_all
+
 /-! non-vacuity -/
+example : parseReqline ⟨0x255f⟩ (ofString "GET /a#\x01 HTTP/1.1\r\n") [] = .error 400 := by rfl
+example : ∃ r, parseReqline ⟨0x255f⟩ (ofString "GET /a#b HTTP/1.1\r\n") [] = .ok r ∧ r.target = ofString "/a#b" :=
+  ⟨_, rfl, rfl⟩
 example : Fresh { version := 1, keepAlive := true, method := ofString "POST" } := ⟨rfl, rfl⟩
 example : ∃ r, parseHeaders ⟨1⟩ { version := 1 } [ofString "Content-Length: 5\r\n"] = .ok r ∧ r.bodyLen = 5 :=
   ⟨_, rfl, rfl⟩
